@@ -52,6 +52,9 @@ def m_del_chunk_zero():
     remake(DEL, "_multi_deletion", "processes = min(processes, len(args))", "processes = processes")
 def m_del_drop_tail():
     remake(DEL, "_multi_deletion", "pool.imap_unordered(worker, args, chunksize=chunk_size)", "pool.imap_unordered(worker, list(args)[: chunk_size * processes], chunksize=chunk_size)")
+def m_moma_infeasible_growth_unchecked():
+    # reverts /repo e882884 (see NOTES_C06 / NOTES_C14)
+    remake(DEL, "_get_growth", "if not isnan(growth):", "if True:")
 def m_sample_floor():
     remake_method(OPT.OptGPSampler, OPT, "sample", "n_process = np.ceil(n / self.processes).astype(int)", "n_process = max(1, n // self.processes)")
 def m_sample_seed_time():
